@@ -1,5 +1,7 @@
 import TunnoxModel.Proofs.C16
 import TunnoxModel.Proofs.C02
+import TunnoxModel.Proofs.C16Start
+import TunnoxModel.Proofs.C16Bg
 /-!
 # C16 — shutdown paths run exactly once and leave nothing running
 
@@ -60,7 +62,7 @@ theorem skel_bridge_cleanup :
 
 /-- Every test-and-clear of `Bridge.Close` lies inside its mutex; the latch comes last. -/
 theorem skel_bridge_close :
-    Skel.Bridge_Close = ["sourceConnMu.Lock", "sourceForwarder.Close", "sourceConnMu.Unlock",
+    Skel.C16_Bridge_Close = ["sourceConnMu.Lock", "sourceForwarder.Close", "sourceConnMu.Unlock",
       "tunnelConnMu.Lock", "targetForwarder.Close", "sourceTunnelConn.Close", "targetTunnelConn.Close",
       "sourceConn.Close", "targetConn.Close", "sourceStream.Close", "targetStream.Close",
       "tunnelConnMu.Unlock", "ManagerBase.Close"] := by decide
@@ -142,6 +144,72 @@ theorem C16_tunnel_safety (cfg : TCfg) (init : Nat) (hinit : init ≤ 1) (reason
 /-- The code as found: two callers that both load `Connected` both run the close sequence. -/
 theorem C16_tunnel_asFound_witness :
     holdsT ⟨0, true⟩ [0, 3] (tObs (tFinal .asFound ⟨0, true⟩ 1 [0, 3] [0, 1, 0, 1])) = false := by
+  decide
+
+/-! ## Tunnel.Start ‖ Tunnel.Close -/
+
+/-- `Start` binds the context (`SetCtx`, reading `manager.Ctx()`) BEFORE the state CAS; the log
+call and the three spawns come after it. -/
+theorem skel_tunnel_start :
+    Skel.Tunnel_Start = ["SetCtx", "manager.Ctx", "state.CompareAndSwap", "corelog.Infof",
+      "monitorPeerNotification", "monitorTimeout", "runDataCopy"] := by decide
+
+/-- **Every interleaving of `Start`'s steps** (`manager.Ctx()`, `SetCtx`, state CAS, spawn — the
+current order) **with any number `n ≥ 1` of `Close` calls**: after all calls returned the tunnel
+is `Closed`, the close sequence ran exactly once, nothing that `Start` spawned is left with a
+live context (monitors and timer end on cancellation, the copy ends on the closed connections),
+and if `Start` reported success the tunnel's context is cancelled and its latch closed.
+(With no closer the tunnel ends `Connected` with nothing closed: first disjunct of `holdsU`,
+see the example below.) -/
+theorem C16_start_close (n : Nat) (hn : 1 ≤ n) (s : Schedule) :
+    holdsU (uObs (uFinal .setCtxFirst n s)) = true :=
+  holdsU_final n hn s
+
+/-- Every call returns. -/
+theorem C16_start_close_all_return (n : Nat) (hn : 1 ≤ n) (s : Schedule) (i : Nat) (l : ULocal)
+    (h : (uFinal .setCtxFirst n s).ths[i]? = some l) : l.pc = UPc.done :=
+  (u_final n hn s).2.2.2.2 i l h
+
+/-- The rejected order "CAS, then `manager.Ctx()`/`SetCtx`": a `Close` that completes between the
+CAS and `SetCtx` leaves the monitors and the 5-minute timer of a closed tunnel running on a live
+context (schedule: Start's CAS, the closer's four steps, the rest of Start). -/
+theorem C16_start_casFirst_witness :
+    holdsU (uObs (uFinal .casFirst 1 [0, 1, 1, 1, 1, 0, 0, 0])) = false := by decide
+
+/-! ## Close against a background loop that is mid-tick -/
+
+/-- **Every interleaving** of the storage cleaner's loop (`select`, tick body under the storage
+lock, re-reading the stop channel; any number `k` of pending ticks, a ready tick always preferred)
+with `n ≥ 1` `Close` calls (dispose latch, `StopCleanup` under the storage lock) while pending I/O
+holds the storage lock until it is unblocked: when everything has returned the cleaner's
+goroutine is gone and the storage is closed. -/
+theorem C16_background (k n : Nat) (hn : 1 ≤ n) (s : Schedule) :
+    holdsG (gObs (gFinal .keep k n s)) = true :=
+  holdsG_final k n hn s
+
+/-- The rejected `StopCleanup` that installs a fresh stop channel after closing the old one: a
+cleaner that is inside its tick body while `StopCleanup` runs comes back to a `select` on the new,
+never-closed channel (schedule: cleaner enters a tick, closer takes the latch, reader unblocks,
+`StopCleanup`, cleaner finishes the tick). -/
+theorem C16_background_replace_witness :
+    holdsG (gObs (gFinal .replace 1 1 [1, 1, 2, 2, 0, 2, 1, 1, 1])) = false := by decide
+
+/-! ## Bridge.Close and late attaches -/
+
+/-- **Every history and every interleaving** of any number of `Bridge.Close` callers with any
+number of `SetSourceConnection` / `SetTargetConnection` calls (`pcs` = which thread does what,
+`s` = the schedule, not even required to let them finish): once one more `Close` — the last one,
+`runBridgeLifecycle`'s deferred `Close` — has run, no connection is left attached, and every
+connection ever attached was closed exactly once or had been overwritten by a later attach while
+still attached (`lost`, excluded by well-formed histories). -/
+theorem C16_bridge_attach (pcs : List APc) (s : Schedule) :
+    holdsA (aObs (closeSeq false (run (aProg false) s (aInit pcs)).sh)) = true :=
+  holdsA_closeSeq _ (aInv_run pcs s)
+
+/-- The rejected "already closed → return" guard at the top of `Close`: Close, then a target
+attaches, then the last Close — the target connection is never closed. -/
+theorem C16_bridge_attach_guard_witness :
+    holdsA (aObs (closeSeq true (run (aProg true) [0, 0, 0, 1] (aInit [.a1, .attT])).sh)) = false := by
   decide
 
 /-! ## Traffic report -/
@@ -242,6 +310,15 @@ example : ((rRounds .asFound rInit [⟨100, 7, 2, [0, 1, 0, 0]⟩]).map rObs) = 
 example : (sObs (sFinal .repaired [(false, 4)] 1 [0, 0, 0, 1, 1, 1])).op = 2 := by decide
 example : (sObs (sFinal .asFound [(false, 4)] 1 [0, 0, 0, 1, 1, 1])).op = 3 := by decide
 example : (fObs ⟨[{ data := [1, 2, 3], err := none }, { data := [4], err := none }], []⟩ [0, 1, 1]).statS = 4 := by decide
+example : uObs (uFinal .setCtxFirst 0 []) = ⟨1, 0, true, 0, false, false⟩ := by decide
+example : holdsU (uObs (uFinal .setCtxFirst 0 [])) = true := by decide
+example : uObs (uFinal .setCtxFirst 1 [0, 0, 0, 1, 1, 1, 1, 0]) = ⟨3, 1, true, 0, true, true⟩ := by decide
+example : uObs (uFinal .setCtxFirst 1 [1, 1, 1, 1]) = ⟨3, 1, false, 0, false, false⟩ := by decide
+example : uObs (uFinal .casFirst 1 [0, 1, 1, 1, 1, 0, 0, 0]) = ⟨3, 1, true, 2, false, false⟩ := by decide
+example : holdsG (gObs (gFinal .keep 1 1 [1, 1, 2, 2, 0, 2, 1, 1, 1])) = true := by decide
+example : (gFinal .replace 1 1 [1, 1, 2, 2, 0, 2, 1, 1, 1]).ths[1]? = some ⟨GPc.wait, 0, 1⟩ := by decide
+example : aObs (closeSeq false (run (aProg false) [0, 0, 0, 1] (aInit [.a1, .attT])).sh) = ⟨1, 1, 1, 1, 0, 0, 0⟩ := by decide
+example : aObs (closeSeq true (run (aProg true) [0, 0, 0, 1] (aInit [.a1, .attT])).sh) = ⟨1, 1, 1, 0, 0, 0, 1⟩ := by decide
 example : (bFinal 3 [0, 1, 2, 2, 1, 0]).sh.sc = 2 ∧ (bFinal 3 [0, 1, 2, 2, 1, 0]).sh.cleanups = 1 := by decide
 
 end Tunnox.C16
